@@ -136,11 +136,14 @@ struct Sys {
     sinks: Vec<Captured>,
 }
 
+/// Alias keys are opaque strings: key 1 is key 0 plus a trailing space, key 2 carries a tab in front and CRLF behind (a
+/// handshake-derived token). They are three DIFFERENT keys.
+const KEYS: [&str; 3] = ["key-0", "key-0 ", "\tkey-2\r\n"];
 fn key(k: u8) -> String {
-    format!("key-{k}")
+    KEYS[k as usize % KEYS.len()].to_string()
 }
 fn unkey(s: &str) -> Option<u8> {
-    s.strip_prefix("key-").and_then(|x| x.parse().ok())
+    KEYS.iter().position(|k| *k == s).map(|i| i as u8)
 }
 fn pid(p: u8) -> PeerId {
     PeerId(100 + p as u64)
